@@ -1,47 +1,68 @@
 (* C08 -- listing and dry-run modes tell the build system the truth.
    Statements only; every proof is `exact <lemma>`.
-   Model: Gen/Listing.v  run : code -> cfg -> inputs -> fs -> fs * listing * result.
+   Model: Gen/Listing.v  run : code -> cfg -> inputs -> fs -> fs * listing * result   (fs: directories, files with content and mode).
    `the_code` (Generated/Gen_Listing.v) is re-translated from /repo on every run: the statement structure of
    ArgparseRunner.run/_list_outputs_only/_list_inputs_only/_generate with the argument expressions of every generator call,
-   _should_generate_support, the argparse rejection rule, the namespace-type decision, SupportGenerator.get_templates and the
-   dry-run guards of the leaf functions.  What the generators enumerate is hand-modelled and tied by correspondence. *)
+   _should_generate_support, the argparse rejection rule, the namespace-type decision, SupportGenerator.get_templates, the
+   dry-run guards of the leaf functions, the effect scan of the whole listing/dry-run call path (k_path_pure), the shape variants
+   of the enumeration functions (k_fix flags) and, per language, the template reference graph (include/import/from/extends).
+   What the generators enumerate is hand-modelled, shape-pinned and tied by correspondence.
+   History (what the code did before the three --list-inputs repairs): coq/theories/History/C08_history.v. *)
 From Coq Require Import List Bool.
 From Verif Require Import Str Listing ListingThm Gen_Listing ListingInst Gen_Pin_c08_enum.
 Import ListNotations.
 Open Scope N_scope.
 
-(* (0) Tie of the hand-modelled enumeration (listed_templates, chain, resolve_name, support_resources in Gen/Listing.v) to the
-   source: the shape pin regenerates Gen_Pin_c08_enum.v from /repo on every run; `pin_c08_enum_ok` is only defined while the
-   normalised AST of DSDLTemplateLoader.__init__/get_source/get_templates/_filter_template_list_by_suffix,
-   CodeGenerator.get_templates, SupportGenerator.get_templates/_get_templates_by_support_type, Language.get_support_files and
-   iter_package_resources is the one the model was written for. *)
-Example C08_enumeration_shape_pinned : pin_c08_enum_ok = true.
-Proof. reflexivity. Qed.
+(* obligation, not a theorem: the shape pin regenerates Gen_Pin_c08_enum.v from /repo on every run; `pin_c08_enum_ok` is only
+   defined while the normalised AST of the enumeration functions (tools/translators/gen_c08.py PIN_COMMON/PIN_VARIANTS) is one the
+   hand model was written for. *)
+Definition C08_enumeration_shape_pinned : pin_c08_enum_ok = true := eq_refl.
+
+(* which branch is live on the tree under test: (lookup, non-.j2, support-templates) repairs recognised, call path effect-free *)
+Eval vm_compute in (k_fix_lookup the_code, k_fix_nonj2 the_code, k_fix_suptpl the_code, k_path_pure the_code).
 
 (* (1) For ALL configurations (language data, flags, overrides, template directories), ALL input sets and ALL file systems:
    if the real run (same options, no listing/dry-run flag) succeeds from an empty output tree, then --list-outputs with the same
-   options succeeds, changes nothing, and prints exactly the set of files the real run creates. *)
+   options succeeds, changes nothing, and prints exactly the set of FILES the real run creates; every directory the real run
+   creates is a parent of a listed file. *)
 Theorem C08_list_outputs_exact :
   forall (c : cfg) (i : inputs), f_lc (c_flags c) = false ->
   forall f' out', run the_code (real_of c) i fs_empty = (f', out', Ok) ->
-  forall f, exists out, run the_code (lo_of c) i f = (f, out, Ok) /\ (forall p, In p out <-> f' p = true).
+  forall f, exists out, run the_code (lo_of c) i f = (f, out, Ok)
+    /\ (forall p, In p out <-> is_file (f' p) = true)
+    /\ (forall q, is_dir (f' q) = true -> exists p, In p out /\ path_in q (parents p) = true).
 Proof. exact list_outputs_exact_thm. Qed.
 Print Assumptions C08_list_outputs_exact.
 
-(* (2) --list-outputs, --list-inputs, --list-configuration and --dry-run leave every file system exactly as it was
-   (whatever else is on the command line, whether or not the run succeeds). *)
+(* (2) --list-outputs, --list-inputs, --list-configuration and --dry-run leave every file system exactly as it was: no path
+   changes kind, content or mode, none appears, none disappears (whatever else is on the command line, whether or not the run
+   succeeds).  Rests on guards_ok the_code: the dry-run guards of the three leaf functions AND the effect scan of every function
+   on the call path (runner, constructors, loaders, namespace tree, generate_all prologues; _handle_overwrite/_generate_code/
+   post-processors reachable only from inside `if not is_dryrun:`). *)
 Theorem C08_list_modes_pure :
   forall (c : cfg) (i : inputs) (f : fs), any_mode c = true -> fst (fst (run the_code c i f)) = f.
 Proof. exact list_modes_pure_thm. Qed.
 Print Assumptions C08_list_modes_pure.
 
-(* (3) --list-inputs names every input that influences the real run's output (templates the generators' environments load,
-   resolved through the active loader chain; DSDL sources of the dependency closure of every generated type), PROVIDED
-   no root-namespace type uses a type from a lookup directory, every loaded template file has the .j2 suffix, and
-   --support-templates does not shadow a packaged support template.
-   The three triggers are the EFFECTIVE ones for the tree under test (the eff_trig definitions in Gen/Listing.v): a trigger whose repair
-   (design_notes/C08_fix_lookup/nonj2/suptpl.patch, recognised by the translator as the k_fix flags) is present is identically false;
-   with the non-.j2 repair the remaining trigger is "a Python package file is loaded as a template". *)
+(* (3) --list-inputs names every template and every DSDL file that influences the real run's output.  The influence set is
+   DERIVED in the model: the include/import/from/extends closure (through the active loader chain) of every class template that
+   can be selected for a generated item and of every support template that is rendered, the support resources copied verbatim,
+   and the DSDL sources of the dependency closure of every generated type.  Configuration inputs (lang/properties.yaml and
+   --configuration files) also influence the output; they are neither templates nor DSDL files, --list-inputs does not name
+   them (Example C08_config_inputs_not_listed), and the statement excludes them explicitly.
+   Residual hypotheses: no Python package file (.py/.pyc) is in the template closure, and no rendered support template refers
+   to further templates (the support listing names the rendered resources only). *)
+Theorem C08_list_inputs_complete :
+  k_fix_lookup the_code = true -> k_fix_nonj2 the_code = true -> k_fix_suptpl the_code = true ->
+  forall (c : cfg) (i : inputs), f_lc (c_flags c) = false -> rejected c = false ->
+  trig_py the_code c i = false -> trig_sup_refs the_code c = false ->
+  forall x, In x (all_influences the_code c i) -> is_config_input c x = false ->
+  forall f, exists out, run the_code (li_of c) i f = (f, out, Ok) /\ In x out.
+Proof. exact list_inputs_complete_thm. Qed.
+Print Assumptions C08_list_inputs_complete.
+
+(* (3') The same for a tree that lacks some of the repairs: the EFFECTIVE triggers (the eff_trig definitions in Gen/Listing.v) are
+   identically false for a repair the translator recognises; otherwise they are the triggers of the historical findings. *)
 Theorem C08_list_inputs_complete_partial :
   forall (c : cfg) (i : inputs), f_lc (c_flags c) = false -> rejected c = false ->
   eff_trig_lookup the_code i = false -> eff_trig_tpl the_code c i = false -> eff_trig_sup the_code c = false ->
@@ -51,44 +72,9 @@ Theorem C08_list_inputs_complete_partial :
 Proof. exact list_inputs_partial_thm. Qed.
 Print Assumptions C08_list_inputs_complete_partial.
 
-(* (3') The full statement, live as soon as the tree has the three repairs. *)
-Theorem C08_list_inputs_complete :
-  k_fix_lookup the_code = true -> k_fix_nonj2 the_code = true -> k_fix_suptpl the_code = true ->
-  forall (c : cfg) (i : inputs), f_lc (c_flags c) = false -> rejected c = false -> trig_py c i = false ->
-  forall x, In x (influence_set the_code c i) ->
-  forall f, exists out, run the_code (li_of c) i f = (f, out, Ok) /\ In x out.
-Proof. exact list_inputs_complete_thm. Qed.
-Print Assumptions C08_list_inputs_complete.
-
-(* On a tree without the respective repair the full statement is false of the faithful model; each witness violates exactly one
-   trigger.  (With the repair the premise is false and the finding is gone: the check then prints no KNOWN-FINDING line.) *)
-(* F-LIST-INPUTS-LOOKUP *)
-Theorem C08_list_inputs_lookup_refuted : k_fix_lookup the_code = false ->
-  exists (c : cfg) (i : inputs) (x : list (list N)),
-    trig_lookup i = true /\ trig_nonj2 c i = false /\ trig_support_override the_code c = false
-    /\ path_in x (influence_set the_code c i) = true /\ path_in x (listed c i) = false.
-Proof. intros H. exists (w_cfg SAsNeeded false None None), w_inputs_lookup, [[108]; [68]]. exact (list_inputs_lookup_refuted_w H). Qed.
-Print Assumptions C08_list_inputs_lookup_refuted.
-
-(* F-LIST-INPUTS-NONJ2 *)
-Theorem C08_list_inputs_nonj2_refuted : k_fix_nonj2 the_code = false ->
-  exists (c : cfg) (i : inputs) (x : list (list N)),
-    trig_lookup i = false /\ trig_nonj2 c i = true /\ trig_support_override the_code c = false
-    /\ path_in x (influence_set the_code c i) = true /\ path_in x (listed c i) = false.
-Proof. intros H. exists (w_cfg SAsNeeded false (Some w_tpl_nonj2) None), w_inputs_nonj2, [[112]; [120]]. exact (list_inputs_nonj2_refuted_w H). Qed.
-Print Assumptions C08_list_inputs_nonj2_refuted.
-
-(* F-LIST-INPUTS-SUPTPL *)
-Theorem C08_list_inputs_support_override_refuted : k_fix_suptpl the_code = false ->
-  exists (c : cfg) (i : inputs) (x : list (list N)),
-    trig_lookup i = false /\ trig_nonj2 c i = false /\ trig_support_override the_code c = true
-    /\ path_in x (influence_set the_code c i) = true /\ path_in x (listed c i) = false.
-Proof. intros H. exists (w_cfg SAsNeeded false None (Some w_sup_dir)), w_inputs_plain, [[100]; [115]]. exact (list_inputs_support_override_refuted_w H). Qed.
-Print Assumptions C08_list_inputs_support_override_refuted.
-
-(* (3b) What --list-inputs prints for the type generator is the set of PATHS of the files with the template suffix that its
-   loader chain can serve (not names: the same basename in two directories gives two entries); for the support generator the
-   paths of the packaged resources SupportGenerator.get_templates enumerates. *)
+(* (3b) What --list-inputs prints for the type generator is the set of PATHS of the listable files that its loader chain can
+   serve (not names: the same basename in two directories gives two entries); for the support generator the path
+   sup_listed_path gives for each packaged resource SupportGenerator.get_templates enumerates. *)
 Theorem C08_listed_templates_are_servable_paths :
   forall (c : cfg) (o : bool) (p : list (list N)),
   In p (listed_templates the_code c GTypes o) <-> exists d f, In d (chain c GTypes) /\ In f d /\ listable the_code f = true /\ tf_path f = p.
@@ -101,11 +87,6 @@ Theorem C08_listed_support_templates_are_resource_paths :
 Proof. exact (listed_support_resources_gen the_code). Qed.
 Print Assumptions C08_listed_support_templates_are_resource_paths.
 
-Example C08_same_basename_both_listed :
-  let c := w_cfg SNever false (Some w_nested_dir) None in
-  path_in [[112]; [109]; [98]] (listed c w_inputs_plain) = true /\ path_in [[112]; [115]; [98]] (listed c w_inputs_plain) = true.
-Proof. exact example_same_basename_both_listed. Qed.
-
 (* (4) The option combination argparse refuses (--omit-serialization-support with --generate-support always) does nothing. *)
 Theorem C08_rejected_does_nothing :
   forall (c : cfg) (i : inputs) (f : fs), rejected c = true -> run the_code c i f = (f, [], Rejected).
@@ -116,27 +97,54 @@ Print Assumptions C08_rejected_does_nothing.
 Example C08_real_run_succeeds_and_is_listed :
   let c := w_cfg SAsNeeded false None None in
   snd (run the_code (real_of c) w_inputs_plain fs_empty) = Ok
-  /\ created c w_inputs_plain [[111]; [114]; [65; 46; 104]] = true
-  /\ created c w_inputs_plain [[111]; [110]; [115; 46; 104]] = true
+  /\ is_file (created c w_inputs_plain [[111]; [114]; [65; 46; 104]]) = true
+  /\ is_file (created c w_inputs_plain [[111]; [110]; [115; 46; 104]]) = true
+  /\ is_dir (created c w_inputs_plain [[111]; [114]]) = true
   /\ forallb (fun p => path_in p (snd (fst (run the_code (lo_of c) w_inputs_plain fs_empty))))
              [[[111]; [114]; [65; 46; 104]]; [[111]; [114]; [66; 46; 104]]; [[111]; [110]; [115; 46; 104]]] = true
   /\ length (snd (fst (run the_code (lo_of c) w_inputs_plain fs_empty))) = 3%nat.
 Proof. exact example_real_run. Qed.
 
-Example C08_partial_hypotheses_satisfiable :
+Example C08_completeness_hypotheses_satisfiable :
   let c := w_cfg SAsNeeded false None None in
   rejected c = false /\ eff_trig_lookup the_code w_inputs_plain = false /\ eff_trig_tpl the_code c w_inputs_plain = false
-  /\ eff_trig_sup the_code c = false /\ support_consistent c = true /\ trig_py c w_inputs_plain = false
-  /\ path_in [[114]; [66]] (influence_set the_code c w_inputs_plain) = true.
+  /\ eff_trig_sup the_code c = false /\ support_consistent c = true /\ trig_py the_code c w_inputs_plain = false
+  /\ trig_sup_refs the_code c = false
+  /\ path_in [[114]; [66]] (influence_set the_code c w_inputs_plain) = true
+  /\ path_in [[112]; [98]] (influence_set the_code c w_inputs_plain) = true
+  /\ path_in [[112]; [117]] (influence_set the_code c w_inputs_plain) = false.
 Proof. exact example_partial_hyps. Qed.
+
+Example C08_config_inputs_not_listed :
+  let c := w_cfg SAsNeeded false None None in
+  is_config_input c [[99]] = true /\ is_config_input c [[121]] = true
+  /\ path_in [[99]] (all_influences the_code c w_inputs_plain) = true
+  /\ path_in [[99]] (listed c w_inputs_plain) = false /\ path_in [[121]] (listed c w_inputs_plain) = false.
+Proof. exact example_config_not_listed. Qed.
+
+Example C08_same_basename_both_listed :
+  let c := w_cfg SNever false (Some w_nested_dir) None in
+  path_in [[112]; [109]; [98]] (listed c w_inputs_plain) = true /\ path_in [[112]; [115]; [98]] (listed c w_inputs_plain) = true.
+Proof. exact example_same_basename_both_listed. Qed.
 
 (* the repaired F-LIST-ONLY-POD stays repaired: `only` + `-pod` lists nothing and creates nothing *)
 Example C08_only_pod_lists_nothing :
   let c := w_cfg SOnly true None None in
   snd (fst (run the_code (lo_of c) w_inputs_plain fs_empty)) = []
   /\ snd (run the_code (real_of c) w_inputs_plain fs_empty) = Ok
-  /\ created c w_inputs_plain [[111]; [110]; [115; 46; 104]] = false.
+  /\ created c w_inputs_plain [[111]; [110]; [115; 46; 104]] = None.
 Proof. exact example_only_pod. Qed.
 
 Example C08_rejection_reachable : rejected (w_cfg SAlways true None None) = true.
 Proof. exact example_rejected. Qed.
+
+(* failing runs exist (outside the premise of (1)): no template, --no-overwrite over existing output, parent is a file *)
+Example C08_failing_runs :
+  let c1 := with_flags (w_cfg SNever false (Some [w_tf 98 true (Some CStructure)]) None) (w_flags_x true false) in
+  let c2 := with_flags (w_cfg SNever false None None) (w_flags_x false true) in
+  let f2 := fst (fst (run the_code c2 w_inputs_plain fs_empty)) in
+  let f3 : fs := fun q => if path_eqb q [[111]; [114]] then Some (EFile 7 420) else None in
+  snd (run the_code c1 w_inputs_plain fs_empty) = NoTemplate
+  /\ snd (run the_code c2 w_inputs_plain fs_empty) = Ok /\ snd (run the_code c2 w_inputs_plain f2) = Exists
+  /\ snd (run the_code c2 w_inputs_plain f3) = IoError.
+Proof. exact example_failures. Qed.
